@@ -94,6 +94,19 @@ CHECKS["C18"] = (
     "matrices with deliberate duplicates, +-0.0 and index vectors of every shape.",
     "Trusts refs/setlattice.py (transcribed from the documented hierarchy). Docstrings are read literally; "
     "behaviours they leave open (which duplicate is returned, ...) are not demanded.", "3/C18")
+CHECKS["C19"] = (
+    "Hypothesis-generated specs / band scales / signals / time vectors; oracles: mpmath closed-form segment "
+    "areas, own log-log interpolation, direct band-overlap sums, rigorous Kaiser-sinc kernel error bound, "
+    "brute-force nearest/previous-sample acceptance sets; additivity / constant / retention metamorphics",
+    "Generated-input search: area equals the closed-form integral of the log-log interpolation (incl. the "
+    "s = -1 log form) and is additive under inserted break points; interp reproduces the spec and is zero "
+    "outside; rescale preserves the mean square of every output band (direct overlap sums); resample "
+    "returns ceil(n p/q) samples at positions k q/p, reproduces constants, retains original samples when "
+    "upsampling and meets a first-principles kernel error bound on band-limited signals; fixtime returns an "
+    "exactly uniform time base whose samples come from the acceptance set of nearest (or previous) input "
+    "samples, with drop-outs, gaps, shifts, duplicates and unsorted input.",
+    "Trusts mpmath and the derived kernel bound; docstrings are the contract (ties/duplicate times accept "
+    "any member of the acceptance set; base= alignment checked as documented).", "3/C19")
 
 NOT_APPLICABLE = {
 }
